@@ -1560,3 +1560,106 @@ pub fn run_c18_exhaustive(ctx: &Ctx, acc: &Mutex<Acc>) -> Option<Violation> {
 pub fn replay_c18x(case: serde_json::Value) -> R<CaseMeta> {
     c18_run(&serde_json::from_value(case).expect("harness: bad C18X case"))
 }
+
+// =============================================================================================
+// C19 — interrupted first-time creation with a pre-created directory tree
+
+pub const C19_INTERRUPTED_RULE: &str = "interrupted creation: a worker process creates a store with pre_create_cas_dirs=true under the LD_PRELOAD shim and is killed immediately before its k-th mutating filesystem call, for k at generated positions early in, in the middle of and at the end of the 65 536-directory creation and around the settings write; the directory is then opened normally (with either value of the flag) and a history of puts with many distinct contents must succeed and read back, exactly as on an uninterrupted store (the remembered choice must not change behaviour observably; first-time initialisation must be crash-safe). non-trivial = kill inside the directory creation or between it and the settings write; distinct by (k, reopen flag)";
+
+#[derive(Clone, Debug, Serialize, Deserialize)]
+pub struct C19ICase {
+    /// kill positions as fractions of the traced creation (0..=65535)
+    pub fracs: Vec<u16>,
+    pub reopen_pre: bool,
+    pub contents: u8,
+}
+
+fn c19i_run(case: &C19ICase) -> R<CaseMeta> {
+    use crate::proc::{run_worker, Script, ShimMode};
+    crate::proc::ensure_shim();
+    let scratch = Scratch::new("c19i");
+    let work = scratch.path.join("work");
+    std::fs::create_dir_all(&work).expect("harness: mkdir");
+    let mut m = CaseMeta::default();
+    let script = Script { cfg: crate::seq::Cfg { kt: "U64".into(), n: 100, asyn: false, scan: true, verify: false }, asyn: false, cleanup: false, ops: vec![], dump: false, pre_create: true };
+    // dry traced run: how many mutating calls does a complete creation make?
+    let db0 = scratch.path.join("db0");
+    std::fs::create_dir_all(&db0).expect("harness: mkdir");
+    let dry = run_worker(&db0, &work, "dry", &script, ShimMode::Trace, std::time::Duration::from_secs(120));
+    if dry.code != Some(0) {
+        eprintln!("HARNESS-ERROR: creation with pre-created tree failed in an error-free run");
+        crate::common::remove_own_scratch();
+        std::process::exit(2);
+    }
+    let total = dry.trace.iter().map(|e| e.mseq).max().unwrap_or(0);
+    let _ = std::fs::remove_dir_all(&db0);
+    let mut ks: Vec<u64> = case.fracs.iter().map(|f| 1 + ((*f as u64) * total) / 65536).collect();
+    ks.extend([total.saturating_sub(1), total.saturating_sub(2), total.saturating_sub(3), total.saturating_sub(5), total]);
+    ks.sort();
+    ks.dedup();
+    for k in ks {
+        if k == 0 {
+            continue;
+        }
+        let db = scratch.path.join("db");
+        let _ = std::fs::remove_dir_all(&db);
+        std::fs::create_dir_all(&db).expect("harness: mkdir");
+        let run = run_worker(&db, &work, "crash", &script, ShimMode::CrashAt(k), std::time::Duration::from_secs(120));
+        if run.code != Some(137) && run.code != Some(0) {
+            fail!("settings/creation-crashed-oddly", "creation run ended with {:?}", run.code);
+        }
+        m.evals += 1;
+        let mut cfg = cfg_n(100, true);
+        cfg.pre_create_cas_dirs = case.reopen_pre;
+        let ctx = format!("creation killed before mutating call {k} of {total}, reopened with pre_create_cas_dirs={}", case.reopen_pre);
+        let cas = match Cas::<u64>::open(&db, cfg.clone()) {
+            Ok(c) => c,
+            Err(e) => fail!(format!("settings/open-after-interrupted-creation-fails/{}", err_path(&e)), "{ctx}: {e:?}"),
+        };
+        for i in 0..case.contents.max(8) as u64 {
+            let content = gen_content(7000 + i, 5 + (i as usize % 40));
+            let r: Result<(), LibError> = (|| {
+                let mut tx = cas.put(i)?;
+                tx.write(&content).map_err(|e| LibError::Io { operation: cassadilia::LibIoOperation::WriteStagingFile, path: None, source: std::io::Error::other(format!("{e:?}")) })?;
+                tx.finish()
+            })();
+            if let Err(e) = r {
+                fail!(format!("settings/put-fails-after-interrupted-creation/{}", err_path(&e)), "{ctx}: put #{i} fails: {e:?}");
+            }
+            match cas.get(&i) {
+                Ok(Some(b)) if b[..] == content[..] => {}
+                other => fail!("settings/read-after-interrupted-creation", "{ctx}: get({i}) = {:?}", other.map(|o| o.map(|b| b.len()))),
+            }
+        }
+        drop(cas);
+        // and once more after a clean reopen
+        match Cas::<u64>::open(&db, cfg) {
+            Ok(c) => {
+                if c.read_index_state().len() != case.contents.max(8) as usize {
+                    fail!("settings/data-changed", "{ctx}: keys lost across a reopen");
+                }
+            }
+            Err(e) => fail!(format!("settings/open-after-interrupted-creation-fails/{}", err_path(&e)), "{ctx}: second open: {e:?}"),
+        }
+        if k + 6 < total || k >= total.saturating_sub(5) {
+            m.nontrivial.push(mix(k, total, case.reopen_pre as u64, 1919));
+        }
+    }
+    m.class("interrupted_creation");
+    Ok(m)
+}
+
+pub fn run_c19_interrupted(ctx: &Ctx, acc: &Mutex<Acc>) -> Option<Violation> {
+    let n = ctx.tier.scale(3, 4) as usize;
+    let items: Vec<C19ICase> = (0..n)
+        .map(|i| {
+            let s = ctx.seed.wrapping_mul(31).wrapping_add(i as u64 * 7919);
+            C19ICase { fracs: vec![(s % 400) as u16 + 20, ((s / 3) % 30000) as u16 + 2000, ((s / 7) % 20000) as u16 + 40000], reopen_pre: i % 2 == 0, contents: 40 }
+        })
+        .collect();
+    enumerate(ctx, acc, "interrupted-creation", "C19I", items, c19i_run)
+}
+
+pub fn replay_c19i(case: serde_json::Value) -> R<CaseMeta> {
+    c19i_run(&serde_json::from_value(case).expect("harness: bad C19I case"))
+}
